@@ -384,6 +384,7 @@ type Startup struct {
 	Creator atomic.Pointer[Subscriber]
 	End     atomic.Int64
 	Failed  atomic.Bool
+	owned   atomic.Bool
 }
 
 func goid() int64 {
@@ -410,24 +411,20 @@ func (r *Rig) startupOfCurrentGoroutine() *Startup {
 func (r *Rig) yield(point string, a, b int64) {
 	switch point {
 	case "trigger.beforeStart":
-		if r.OwnsTrigger(a) {
-			st := &Startup{Gid: goid(), Begin: r.Clock.Tick()}
-			r.spawned.Add(1)
-			r.mu.Lock()
-			r.startups = append(r.startups, st)
-			r.startupByG[st.Gid] = st
-			r.mu.Unlock()
-		}
+		// Recorded for every goroutine (the trigger id is not used to decide whose it is: a goroutine
+		// left over from an earlier case never calls into this rig's source and stays un-owned).
+		st := &Startup{Gid: goid(), Begin: r.Clock.Tick()}
+		r.mu.Lock()
+		r.startupByG[st.Gid] = st
+		r.mu.Unlock()
 	case "trigger.afterStart", "trigger.startFailed":
-		if r.OwnsTrigger(a) {
-			st := r.startupOfCurrentGoroutine()
-			r.Ctl.Yield(point, a, b)
-			if st != nil {
-				st.Failed.Store(point == "trigger.startFailed")
-				st.End.Store(r.Clock.Tick())
-			}
-			return
+		st := r.startupOfCurrentGoroutine()
+		r.Ctl.Yield(point, a, b)
+		if st != nil {
+			st.Failed.Store(point == "trigger.startFailed")
+			st.End.Store(r.Clock.Tick())
 		}
+		return
 	}
 	if point == "sub.join.beforeStartupHook" {
 		if r.OwnsSub(a, b) {
@@ -441,6 +438,24 @@ func (r *Rig) yield(point string, a, b int64) {
 		}
 	}
 	r.Ctl.Yield(point, a, b)
+}
+
+// ownStartup is called when the current goroutine calls into this rig's source on behalf of one of
+// this rig's subscribers: if it is a start-up goroutine, it now counts as seen, with its creator.
+func (r *Rig) ownStartup(creator *Subscriber) {
+	st := r.startupOfCurrentGoroutine()
+	if st == nil {
+		return
+	}
+	if st.owned.CompareAndSwap(false, true) {
+		r.spawned.Add(1)
+		r.mu.Lock()
+		r.startups = append(r.startups, st)
+		r.mu.Unlock()
+	}
+	if creator != nil {
+		st.Creator.Store(creator)
+	}
 }
 
 func (r *Rig) event(name string, a, b int64) {
